@@ -163,11 +163,16 @@ def main():
                 d = os.path.join(root, f"toast{k}")
                 pio = PyramidIO(d, scheme=scheme, default_format="png")
                 b = Builder(pio)
-                b.toast_base(plate_carree_sampler(sky), depth, parallel=1)
-                b.set_name("t")
-                b.cascade(parallel=1)
-                b.write_index_rel_wtml()
                 tag = f"allsky/{short}/png/depth{depth}"
+                try:
+                    b.toast_base(plate_carree_sampler(sky), depth, parallel=1)
+                    b.set_name("t")
+                    b.cascade(parallel=1)
+                    b.write_index_rel_wtml()
+                except Exception as e:
+                    h.violation(f"crash:allsky:depth{depth}", f"{tag}: the workflow raised {type(e).__name__}: {e}", input=tag)
+                    h.case((tag,))
+                    continue
                 h.case((tag,))
                 h.count("workflow", "allsky")
                 check_dir(h, tag, d, short, lines, py, expect_levels=depth, full=True)
@@ -185,14 +190,19 @@ def main():
                 hist = [False, False, True, False]          # fresh, repeated, override, repeated
                 prev = None
                 for step, override in enumerate(hist):
-                    with warnings.catch_warnings():
-                        warnings.simplefilter("ignore")
-                        odir, bld = toasty.tile_fits(fp, out_dir=out, tiling_method=method, override=override, parallel=1)
                     tag = f"tile_fits/{mname}/{w}x{hh}/step{step}{'-override' if override else ''}"
+                    try:
+                        with warnings.catch_warnings():
+                            warnings.simplefilter("ignore")
+                            odir, bld = toasty.tile_fits(fp, out_dir=out, tiling_method=method, override=override, parallel=1)
+                    except Exception as e:
+                        h.violation(f"crash:tile_fits:{mname}", f"{tag}: tile_fits raised {type(e).__name__}: {e}", input=tag)
+                        h.case((tag,))
+                        break
                     h.case((tag,))
                     h.count("workflow", "tile_fits-" + mname)
                     h.count("history", ["fresh", "repeated", "override", "repeated-after-override"][step])
-                    res = check_dir(h, tag, odir, "LsYsYX", lines, py, full=(mname == "tan"))
+                    res = check_dir(h, tag, odir, "LsYsYX", lines, py, full=False)
                     if res is None:
                         continue
                     imgset, place = res
